@@ -431,14 +431,14 @@ def generate(rng, idx, tier, variant):
     np_err = rng.choice(['default'] * 7 + ['ignore', 'warn', 'raise'])
     # (with the caller's error state at 'raise', an overflow in the solver's own step arithmetic is the caller's doing)
     spec['_allow_huge'] = np_err != 'raise'
-    if rng.random() < 0.08:
+    if rng.random() < 0.12:
         spec['dtype'] = 'float32'  # the model's own dtype= argument: every series, and the solver's step arithmetic, in single precision
         spec['_allow_huge'] = False  # (huge float64 values would overflow on the way into the model's arrays)
     elif variant == 'solver' and rng.random() < 0.07:
         make_integer_model(rng, spec)
     ops = []
     two = rng.random() < 0.3  # a sibling instance of the same class takes part in the history
-    wide = spec.get('dtype') == 'float32' and rng.random() < 0.6
+    wide = spec.get('dtype') == 'float32' and rng.random() < 0.3  # (most single-precision models keep a check list wholly in their own dtype)
     if wide:
         two = False
         ops.append({'op': 'add_variable', 'obj': 0, 'name': 'NW', 'v': 1.0, 'dtype': 'float64', 'check': True})
